@@ -239,6 +239,67 @@ def _g_ninf(rng):
     return _ninf_row(rng, _logits(rng, rng.choice([2, 3, 3, 4])))
 
 
+# ---- operation SEQUENCES on one distribution object (fifth round).  The distributions derive the
+# parametrisation they were not built with (and the SRSWOR log-partition) lazily and cache it in the
+# object's __dict__; `expand` builds a NEW object from what it finds there.  A history is a list of
+# operation names run on the object with the results dropped; the token "expand" derives a new object
+# (the next pending leading axis of the case's `expand`, or an expand to the same shape when none is
+# pending) and the remaining operations run on THAT object.  What is observed afterwards must be the
+# distribution of the expanded parameters whatever the history was.
+RELAXED_OPS = ["probs", "logits", "mean", "variance", "stddev", "entropy", "support", "shapes", "repr",
+               "rsample", "rsample_n", "sample", "threshold", "threshold_st", "log_prob", "tlog_prob",
+               "csample", "clog_prob", "clog_prob_other", "enumerate_support", "relax", "st"]
+SRSWOR_OPS = ["log_partition", "mean", "variance", "stddev", "support", "shapes", "repr",
+              "has_enumerate_support", "enumerate_support", "enumerate_support_noexpand", "sample",
+              "sample_n", "log_prob", "log_prob_n", "total_count", "given_count"]
+
+
+# which lazy attributes an operation reads, in order (for the Lean OBJECT model `RelaxedObj` /
+# `SrsworObj`: what is in `__dict__` when `expand` runs).  By `C19_obj_*_history` what the object denotes
+# does not depend on this, so an inaccuracy here cannot raise an alarm; it only decides which branch of
+# the object model a case exercises.
+RELAXED_READS = {"probs": ["probs"], "logits": ["logits"], "mean": ["logits"], "rsample": ["logits"],
+                 "rsample_n": ["logits"], "sample": ["logits"], "log_prob": ["logits"], "tlog_prob": ["logits"],
+                 "csample": ["probs"], "clog_prob": ["logits"], "clog_prob_other": ["logits"],
+                 "relax": ["logits", "probs", "logits"], "st": ["logits"]}
+SRSWOR_READS = {"log_partition": ["partition"], "log_prob": ["partition"], "log_prob_n": ["partition"]}
+
+
+def _history(rng, ops, maxlen=4, tokens=2):
+    h = [rng.choice(ops) for _ in range(rng.randint(0, maxlen))]
+    for _ in range(rng.randint(0, tokens)):
+        h.insert(rng.randint(0, len(h)), "expand")
+    return h
+
+
+def _bshape(*shapes):
+    """numpy-style broadcast of shapes (lists)"""
+    n = max(len(s) for s in shapes)
+    out = []
+    for i in range(n):
+        dims = [s[len(s) - n + i] for s in shapes if len(s) - n + i >= 0]
+        m = max(dims)
+        if any(d not in (1, m) for d in dims):
+            raise ValueError(f"shapes {shapes} do not broadcast")
+        out.append(m)
+    return out
+
+
+def _bindex(src, dst, flat):
+    """flat index into a tensor of shape `src` of the entry that entry `flat` of its broadcast to
+    `dst` reads"""
+    idx = []
+    for d in reversed(dst):
+        idx.append(flat % d)
+        flat //= d
+    idx.reverse()
+    idx = idx[len(dst) - len(src):]
+    k = 0
+    for i, d in zip(idx, src):
+        k = k * d + (i if d != 1 else 0)
+    return k
+
+
 def fam_short(x, n=160):
     t = str(x)
     return t if len(t) <= n else t[:n] + "..."
@@ -267,7 +328,14 @@ class C19(PropertyCheck):
             "csample(b, v) against rsample at the uniform point of the region of b; "
             "Relax/ST estimators at p = k/16 for every k in 0..16, both constructions, parameter tensors "
             "of shape () .. (2,2), hand-written and REBAR control variates of the relaxed sample, and "
-            "(combination logic) at boundary parameters, Bernoulli and categorical. SRSWOR: all (total, given) <= 6, every forced/free "
+            "(combination logic) at boundary parameters, Bernoulli and categorical. operation SEQUENCES on one "
+            "distribution object (both relaxed distributions, SRSWOR): every lazy property / method / one estimator "
+            "call, each also immediately before an expand, random histories of up to 6 operations, expands in "
+            "several steps and to the same shape, operations continuing on the derived object; the object at the "
+            "end against the Lean object model, a python oracle and a fresh construction of the expanded "
+            "parameter; Relax/ST grids on a used-then-expanded proposal; SRSWOR with batched counts (equal or "
+            "not over the batch, broadcast, out_size default/max/beyond). "
+            "SRSWOR: all (total, given) <= 6, every forced/free "
             "outcome pattern, genuine seeds up to total = 64 (257 thorough). "
             "binomial: every (n, k) with n <= 66 in both branches. non-trivial: sample space of >= 4 points "
             "(estimators), >= 1 free draw (SRSWOR), n >= 2 (combinatorics); distinct by the case")
@@ -426,7 +494,8 @@ class C19(PropertyCheck):
                    "values": [fs(rng.choice(pool)) for _ in range(prod(shape))],
                    "expand": expand, "sample": sample, "dtype": rng.choice(["float64", "float64", "float32"]),
                    "us": [fs(rng.choice(U_GRID)) for _ in range(n)],
-                   "vs": [fs(rng.choice(U_GRID)) for _ in range(n)], "validate": rng.random() < 0.5}
+                   "vs": [fs(rng.choice(U_GRID)) for _ in range(n)], "validate": rng.random() < 0.5,
+                   "history": _history(rng, RELAXED_OPS)}
         for i in range(48 if not big else 480):
             par = rng.choice(["probs", "logits"])
             V = rng.choice([2, 3, 3, 4])
@@ -449,7 +518,72 @@ class C19(PropertyCheck):
                    "dtype": rng.choice(["float64", "float64", "float32"]),
                    "us": [[fs(rng.choice(G_GRID)) for _ in range(V)] for _ in range(n)],
                    "vs": [[fs(rng.choice(G_GRID)) for _ in range(V)] for _ in range(n)],
-                   "ks": [rng.randrange(V) for _ in range(n)], "validate": rng.random() < 0.5}
+                   "ks": [rng.randrange(V) for _ in range(n)], "validate": rng.random() < 0.5,
+                   "history": _history(rng, RELAXED_OPS)}
+        # ---- operation sequences on ONE object, then a derived object (fifth round): every operation
+        # (each lazy property, each method, one estimator call) x both constructions immediately before
+        # `expand`, followed by further random operations / expands; the derived object is observed
+        # entry by entry like every other tensor case and against a freshly constructed distribution
+        # of the expanded parameters
+        for op in RELAXED_OPS:
+            for par in ("probs", "logits"):
+                shape = rng.choice([[], [2], [3], [2, 2], [1]])
+                pool = ([Fr(k, 16) for k in range(1, 16)] + LB_PROBS[3:7] if par == "probs"
+                        else [Fr(k, 8) for k in range(-24, 25)] + LB_LOGITS[3:7])
+                expand = rng.choice([[2], [2], [3], [2, 1], [1, 2]])
+                sample = rng.choice([[], [], [2]])
+                n = prod(shape) * prod(expand) * prod(sample)
+                yield {"kind": "bern_nd", "param": par, "shape": shape,
+                       "values": [fs(rng.choice(pool)) for _ in range(prod(shape))],
+                       "expand": expand, "sample": sample, "dtype": rng.choice(["float64", "float64", "float32"]),
+                       "us": [fs(rng.choice(U_GRID)) for _ in range(n)],
+                       "vs": [fs(rng.choice(U_GRID)) for _ in range(n)], "validate": rng.random() < 0.5,
+                       "history": [op, "expand"] + _history(rng, RELAXED_OPS, 2, 1)}
+                V = rng.choice([2, 3])
+                batch = rng.choice([[], [2], [2, 2], [1]])
+                rows = [(_ninf_row(rng, _logits(rng, V)) if par == "logits" and rng.random() < 0.25 else
+                         _logits(rng, V) if par == "logits" else _simplex(rng, V)) for _ in range(prod(batch))]
+                n = prod(batch) * prod(expand) * prod(sample)
+                yield {"kind": "gumbel_nd", "param": par, "shape": batch + [V],
+                       "values": [x for r in rows for x in r], "expand": expand, "sample": sample,
+                       "dtype": rng.choice(["float64", "float64", "float32"]),
+                       "us": [[fs(rng.choice(G_GRID)) for _ in range(V)] for _ in range(n)],
+                       "vs": [[fs(rng.choice(G_GRID)) for _ in range(V)] for _ in range(n)],
+                       "ks": [rng.randrange(V) for _ in range(n)], "validate": rng.random() < 0.5,
+                       "history": [op, "expand"] + _history(rng, RELAXED_OPS, 2, 1)}
+        # the SRSWOR distribution the same way: batched counts (total / given constant or not over the
+        # batch, the two broadcast against each other), out_size default / max / beyond, every
+        # operation immediately before an expand (leading axes and size-1 axes), random sequences
+        def srswor_seq(hist):
+            tshape, gshape = rng.choice([([], []), ([3], [3]), ([3], []), ([], [2]), ([2, 2], [2, 2]),
+                                         ([2, 1], [2]), ([2], [2, 1]), ([1], [1]), ([2], [2])])
+            bsh = _bshape(tshape, gshape)
+            while True:
+                t0 = rng.randint(0, 5)
+                same_t = rng.random() < 0.55
+                tot = [t0 if same_t else rng.randint(0, 5) for _ in range(prod(tshape))]
+                if max(tot) >= 1:
+                    break
+            # given <= total of every element it meets
+            cap = [min(tot[_bindex(tshape, bsh, i)] for i in range(prod(bsh))
+                       if _bindex(gshape, bsh, i) == j) for j in range(prod(gshape))]
+            g0 = rng.randint(0, min(cap))
+            same_g = rng.random() < 0.4
+            giv = [g0 if same_g else rng.randint(0, c) for c in cap]
+            mt = max(tot)
+            # successive targets of `expand`: size-1 axes of the batch shape made larger, then new
+            # leading axes (a history token applies the next one; what is left is applied at the end)
+            lead = rng.choice([[], [2], [2], [3], [2, 1]])
+            grown = [(rng.choice([2, 3]) if d == 1 and rng.random() < 0.7 else d) for d in bsh]
+            exps = ([grown] if grown != bsh else []) + ([lead + grown] if lead else [])
+            return {"kind": "srswor_seq", "tshape": tshape, "gshape": gshape, "total": tot, "given": giv,
+                    "out_size": rng.choice([None, mt, mt + 1]), "validate": rng.random() < 0.5,
+                    "history": hist, "expands": exps if rng.random() < 0.85 else [],
+                    "seed": rng.randrange(1 << 30), "f": _table(rng, 1 << (mt + 1))}
+        for op in SRSWOR_OPS:
+            yield srswor_seq([op, "expand"] + _history(rng, SRSWOR_OPS, 2, 1))
+        for _ in range(24 if not big else 240):
+            yield srswor_seq(_history(rng, SRSWOR_OPS))
         # ---- estimators: whole sample space
         reps = 2 if not big else 12
         for _ in range(reps):
@@ -587,6 +721,24 @@ class C19(PropertyCheck):
             yield {"kind": "relax_value", "param": par, "shape": shape,
                    "ks": [rng.choice(kpool) for _ in range(n)], "f": [_table(rng, 2) for _ in range(n)],
                    "cvkind": rng.choice(["smooth", "rebar"]),
+                   "cv": [fs(_dy(rng, -2, 2, 4)), fs(_dy(rng, -2, 2, 4)), fs(rng.choice([Fr(1, 2), Fr(1), Fr(2)]))]}
+        # the estimators on a DERIVED proposal: an object that has been used (an estimator call, a
+        # conditional sample, any lazy property read, ...) is expanded and handed to a new estimator; the
+        # grid mean must be E f for every entry of the expanded proposal
+        for i in range(12 if not big else 96):
+            par = "logits" if i % 2 == 0 else "probs"
+            shape = rng.choice([[], [1], [2]])
+            n = prod(shape)
+            hist = ([rng.choice(["relax", "st", "csample", "probs", "logits", "rsample"])] if i % 3 else []) \
+                + _history(rng, RELAXED_OPS, 3, 1)
+            expand = rng.choice([[2], [2], [1], [3], [2, 1]])
+            if i % 4 == 3:
+                yield {"kind": "st_value", "param": par, "ks": [rng.randint(1, 15) for _ in range(rng.choice([1, 2]))],
+                       "f": _table(rng, 4), "history": hist, "expand": expand}
+                continue
+            yield {"kind": "relax_value", "param": par, "shape": shape,
+                   "ks": [rng.choice([4, 8, 12]) for _ in range(n)], "f": [_table(rng, 2) for _ in range(n)],
+                   "cvkind": rng.choice(["smooth", "rebar"]), "history": hist, "expand": expand,
                    "cv": [fs(_dy(rng, -2, 2, 4)), fs(_dy(rng, -2, 2, 4)), fs(rng.choice([Fr(1, 2), Fr(1), Fr(2)]))]}
         cdraw = [Fr(0), Fr(1, 1 << 40), 1 - Fr(1, 1 << 53), Fr(1)]
         for i in range(40 if not big else 400):
@@ -1866,6 +2018,299 @@ class C19(PropertyCheck):
             fails.append((f"|support| * P(sample) = {impl['n_support'] * float(F(impl['prob']))}", None))
         return fails
 
+    # operation sequences on one SRSWOR distribution object, derived objects (expand), batched counts
+    def _sq_layout(self, case):
+        """-> (batch shape at construction, final batch shape, out_size, total / given per entry of the
+        final batch (python broadcasting: independent of torch))"""
+        bsh = _bshape(case["tshape"], case["gshape"])
+        final = list(case["expands"][-1]) if case.get("expands") else bsh
+        n = self._prod(final)
+        base = [_bindex(bsh, final, i) for i in range(n)]
+        tot = [case["total"][_bindex(case["tshape"], bsh, j)] for j in base]
+        giv = [case["given"][_bindex(case["gshape"], bsh, j)] for j in base]
+        out = case["out_size"] if case["out_size"] is not None else max(case["total"])
+        return bsh, final, out, tot, giv
+
+    @staticmethod
+    def _sq_valid(d):
+        """a vector of the support of every batch element, from the object's own counts"""
+        import torch
+        out = d.event_shape[0]
+        return (torch.arange(out) < d.given_count.unsqueeze(-1)).float()
+
+    def _srswor_op(self, d, op):
+        if op in ("log_partition", "mean", "variance", "stddev", "support", "has_enumerate_support",
+                  "total_count", "given_count"):
+            getattr(d, op)
+        elif op == "shapes":
+            d.batch_shape, d.event_shape
+        elif op == "repr":
+            repr(d)
+        elif op in ("enumerate_support", "enumerate_support_noexpand"):
+            try:
+                d.enumerate_support(expand=op == "enumerate_support")
+            except NotImplementedError:
+                pass
+        elif op == "sample":
+            d.sample()
+        elif op == "sample_n":
+            d.sample([2])
+        elif op == "log_prob":
+            d.log_prob(self._sq_valid(d))
+        elif op == "log_prob_n":
+            d.log_prob(self._sq_valid(d).expand([2] + list(d.batch_shape) + list(d.event_shape)))
+        else:
+            raise ValueError(f"unknown operation {op}")
+
+    def _sq_dist(self, case):
+        import torch
+        from pydrobert.torch.distributions import SimpleRandomSamplingWithoutReplacement as S
+        total = torch.tensor(case["total"]).reshape(case["tshape"])
+        given = torch.tensor(case["given"]).reshape(case["gshape"])
+        if not case["tshape"] and case.get("validate"):
+            total = int(total)            # the documented int form
+        d = S(given, total, case["out_size"], validate_args=True if case.get("validate") else None)
+        pending = [list(x) for x in case.get("expands") or []]
+        torch.manual_seed(case["seed"])
+        for op in case.get("history") or []:
+            if op == "expand":
+                d = d.expand(pending.pop(0) if pending else list(d.batch_shape))
+            else:
+                self._srswor_op(d, op)
+        for shp in pending:
+            d = d.expand(shp)
+        return d
+
+    def _impl_srswor_seq(self, case):
+        import torch
+        from pydrobert.torch.estimators import EnumerateEstimator
+        d = self._sq_dist(case)
+        out = d.event_shape[0]
+        B = list(d.batch_shape)
+        nB = self._prod(B)
+        per = lambda t: t.reshape(nB, *t.shape[len(B):]) if len(t.shape) > len(B) else t.reshape(nB)
+        f64 = lambda t: [fs(x) for x in t.to(torch.float64).reshape(-1).tolist()]
+        res = {"batch_shape": B, "event_shape": list(d.event_shape),
+               "total": [int(x) for x in d.total_count.reshape(-1).tolist()],
+               "given": [int(x) for x in d.given_count.reshape(-1).tolist()],
+               "has_enum": bool(d.has_enumerate_support)}
+        valid = self._sq_valid(d)
+        lp = d.log_prob(valid)
+        res["lp_shape"] = list(lp.shape)
+        res["prob"] = f64(lp.to(torch.float64).exp())
+        sup_obj = d.support
+        res["check_valid"] = [bool(x) for x in sup_obj.check(valid).reshape(-1).tolist()]
+        flip = valid.clone()
+        flip[..., 0] = 1 - flip[..., 0]
+        res["check_flip"] = [bool(x) for x in sup_obj.check(flip).reshape(-1).tolist()]
+        # the right number of ones, one of them at position `total` (beyond the element's length)
+        tc = d.total_count.reshape(-1).tolist()
+        gc = d.given_count.reshape(-1).tolist()
+        bey = valid.clone().reshape(nB, out)
+        can = []
+        for i in range(nB):
+            ok = gc[i] >= 1 and tc[i] < out
+            can.append(ok)
+            if ok:
+                bey[i, gc[i] - 1] = 0
+                bey[i, tc[i]] = 1
+        chk = sup_obj.check(bey.reshape(B + [out])).reshape(-1).tolist()
+        res["check_beyond"] = [bool(c) if ok else None for c, ok in zip(chk, can)]
+        res["mean"] = [[fs(x) for x in r] for r in per(d.mean.to(torch.float64).expand(B + [out])).tolist()]
+        torch.manual_seed(case["seed"] + 1)
+        b = d.sample([3])
+        res["sample_shape"] = list(b.shape)
+        res["sample_ok"] = [bool(x) for x in sup_obj.check(b).all(0).reshape(-1).tolist()]
+        rows = b.reshape(3, nB, out)
+        res["sample_rows"] = [[[int(x) for x in rows[s, i].tolist()] for s in range(3)] for i in range(nB)]
+        try:
+            sup = d.enumerate_support()
+            res["support"] = [[int(x) for x in r] for r in sup.reshape(sup.shape[0], nB, out)[:, 0].tolist()]
+            res["support_shape"] = list(sup.shape)
+            res["support_shape_noexpand"] = list(d.enumerate_support(expand=False).shape)
+            res["support_rows_equal"] = bool((sup == sup.reshape(sup.shape[0], nB, out)[:, :1].reshape(
+                [sup.shape[0]] + [1] * len(B) + [out])).all())
+            res["sup_in_support"] = [bool(x) for x in sup_obj.check(sup).all(0).reshape(-1).tolist()]
+            try:
+                res["psum"] = f64(d.log_prob(sup).to(torch.float64).exp().sum(0).expand(B))
+            except ValueError:          # validation: a row outside the support of some element
+                res["psum"] = None
+        except NotImplementedError:
+            res["enum_error"] = "NotImplementedError"
+        t = torch.tensor([float(F(x)) for x in case["f"]], dtype=torch.float64)
+        w = torch.tensor([float(2 ** j) for j in range(out)])
+        func = lambda bb: t[(bb * w).sum(-1).round().long()]
+        try:
+            est = EnumerateEstimator(d, func)
+        except ValueError:
+            res["est_error"] = "ValueError"
+            return res
+        try:
+            v = est()
+            res["est"] = f64(v)
+            res["est_shape"] = list(v.shape)
+        except ValueError:
+            res["est"], res["est_shape"] = None, None
+        return res
+
+    def _req_srswor_seq(self, case):
+        _, _, out, tot, giv = self._sq_layout(case)
+        reqs = [{"op": "c19.srswor_prob", "case": {"out_size": out, "total": t, "given": g}}
+                for t, g in zip(tot, giv)]
+        if len(set(tot)) == 1 and len(set(giv)) == 1:
+            reqs.append({"op": "c19.enum_card", "case": {"length": tot[0], "count": giv[0]}})
+        oh = self._sq_model_hist(case)
+        if oh is not None:
+            bsh = _bshape(case["tshape"], case["gshape"])
+            nb = self._prod(bsh)
+            reqs.append({"op": "c19.srswor_obj", "case": {
+                "shape": bsh, "out_size": out, "hist": oh,
+                "total": [case["total"][_bindex(case["tshape"], bsh, j)] for j in range(nb)],
+                "given": [case["given"][_bindex(case["gshape"], bsh, j)] for j in range(nb)]}})
+        return {"op": "c19.multi", "case": {"reqs": reqs}}
+
+    def _sq_model_hist(self, case):
+        """the history for the Lean object model `SrsworObj` (reads of the lazy `log_partition`, expands
+        by new LEADING axes); None when an expand of the case enlarges a size-1 axis (not in the model)"""
+        cur = _bshape(case["tshape"], case["gshape"])
+        pending = [list(x) for x in case.get("expands") or []]
+        out = []
+
+        def lead(target):
+            nonlocal cur
+            k = len(target) - len(cur)
+            if k < 0 or target[k:] != cur:
+                return False
+            out.append(target[:k])
+            cur = target
+            return True
+        for op in case.get("history") or []:
+            if op == "expand":
+                if not lead(pending.pop(0) if pending else list(cur)):
+                    return None
+            else:
+                out += SRSWOR_READS.get(op, [])
+        for t in pending:
+            if not lead(t):
+                return None
+        return out
+
+    def _cmp_srswor_seq(self, case, impl, model):
+        _, _, out, tot, giv = self._sq_layout(case)
+        reps = model["replies"]
+        outl = []
+        for i, (p, m) in enumerate(zip(impl["prob"], reps)):
+            if not close(p, m["prob"], 1e-5):
+                outl.append(f"element {i} (total={tot[i]}, given={giv[i]}): exp(log_prob) impl={float(F(p))} "
+                            f"model={m['prob']}")
+            if F(m["support_times_prob"]) != 1:
+                outl.append(f"model: |support| * P = {m['support_times_prob']}")
+        sup = [r for r in reps[len(tot):] if "support" in r]
+        if sup and "support" in impl:
+            exp = [r + [0] * (out - tot[0]) for r in sup[0]["support"]]
+            if impl["support"] != exp:
+                outl.append(f"enumerate_support impl={fam_short(impl['support'])} model={fam_short(exp)}")
+        obj = [r for r in reps[len(tot):] if "cached" in r]
+        if obj:
+            # the object model after the same history: shapes, counts, exp(log_prob) per element
+            o = obj[0]
+            for nm in ("batch_shape", "total", "given"):
+                if impl[nm] != o[nm]:
+                    outl.append(f"object model: {nm} impl={impl[nm]} model={o[nm]}")
+            if len(o["probs"]) != len(impl["prob"]) or not all(
+                    close(a, b, 1e-5) for a, b in zip(impl["prob"], o["probs"])):
+                outl.append(f"object model: exp(log_prob) impl={[float(F(x)) for x in impl['prob']]} "
+                            f"model={o['probs']}")
+        return outl[:6]
+
+    def _pred_srswor_seq(self, case, impl, model):
+        bsh, final, out, tot, giv = self._sq_layout(case)
+        head = (f"SimpleRandomSamplingWithoutReplacement(given {case['given']} of shape {case['gshape']}, total "
+                f"{case['total']} of shape {case['tshape']}, out_size={case['out_size']})"
+                + (f" after the operations {case['history']}" if case.get("history") else "")
+                + (f", expanded to {case['expands']}" if case.get("expands") else ""))
+        fails = []
+        if impl["batch_shape"] != final or impl["event_shape"] != [out]:
+            fails.append((f"{head}: batch_shape {impl['batch_shape']}, event_shape {impl['event_shape']}; expected "
+                          f"{final}, {[out]}", None))
+            return fails
+        if impl["total"] != tot or impl["given"] != giv:
+            fails.append((f"{head}: total_count {impl['total']}, given_count {impl['given']}; the broadcast / "
+                          f"expanded counts are {tot}, {giv}", None))
+            return fails
+        n = len(tot)
+        enumerable = len(set(tot)) == 1 and len(set(giv)) == 1
+        if impl["has_enum"] != enumerable:
+            fails.append((f"{head}: has_enumerate_support is {impl['has_enum']} for total_count {tot}, given_count "
+                          f"{giv} (the support can be enumerated only if all totals are equal and all given counts "
+                          f"are equal)", None))
+        if impl["lp_shape"] != final:
+            fails.append((f"{head}: log_prob of a tensor of shape batch + event has shape {impl['lp_shape']}", None))
+        for i in range(n):
+            el = f"element {i} (total={tot[i]}, given={giv[i]}) of {head}"
+            c = math.comb(tot[i], giv[i])
+            if abs(c * float(F(impl["prob"][i])) - 1) > 1e-5:
+                fails.append((f"{el}: exp(log_prob) = {float(F(impl['prob'][i]))!r}, |support| = C(total, given) = "
+                              f"{c}: the probabilities over the support do not sum to one", None))
+            if not impl["check_valid"][i] or impl["check_flip"][i] or impl["check_beyond"][i]:
+                fails.append((f"{el}: support.check says {impl['check_valid'][i]} for a vector with `given` ones "
+                              f"inside `total`, {impl['check_flip'][i]} for one with a different number of ones, "
+                              f"{impl['check_beyond'][i]} for one with a one beyond `total`", None))
+            want = [Fr(giv[i], max(tot[i], 1)) if j < tot[i] else Fr(0) for j in range(out)]
+            if not all(close(x, y, 1e-6) for x, y in zip(impl["mean"][i], want)):
+                fails.append((f"{el}: mean {[float(F(x)) for x in impl['mean'][i]]} != given / total inside "
+                              f"total, 0 beyond", None))
+            for r in impl["sample_rows"][i]:
+                if any(x not in (0, 1) for x in r) or sum(r[: tot[i]]) != giv[i] or any(r[tot[i]:]):
+                    fails.append((f"{el}: sample {r} is not a binary vector with {giv[i]} ones inside the first "
+                                  f"{tot[i]} positions", None))
+                    break
+            if not impl["sample_ok"][i]:
+                fails.append((f"{el}: a sample is outside the distribution's own support", None))
+        if impl["sample_shape"] != [3] + final + [out]:
+            fails.append((f"{head}: sample([3]) has shape {impl['sample_shape']}", None))
+        table = lambda r: F(case["f"][sum(b << j for j, b in enumerate(r))])
+        if "support" in impl:
+            # whatever has_enumerate_support said: what enumerate_support returns must be the support of
+            # EVERY batch element, and the estimator built on it the exact expectation per element
+            for i in range(n):
+                el = f"element {i} (total={tot[i]}, given={giv[i]}) of {head}"
+                want = sorted(list(b) + [0] * (out - tot[i]) for b in itertools.product([0, 1], repeat=tot[i])
+                              if sum(b) == giv[i])
+                if sorted(impl["support"]) != want or not impl["support_rows_equal"]:
+                    fails.append((f"{el}: enumerate_support returns {fam_short(impl['support'], 80)}, which is not "
+                                  f"the set of vectors of this element's support", None))
+                elif not impl["sup_in_support"][i]:
+                    fails.append((f"{el}: enumerate_support yields a vector outside support", None))
+                if impl["psum"] is None:
+                    if not any("rejects the enumerated support" in w for w, _ in fails):
+                        fails.append((f"{head}: log_prob rejects the enumerated support (ValueError)", None))
+                elif abs(float(F(impl["psum"][i])) - 1) > 1e-5:
+                    fails.append((f"{el}: the probabilities over the enumerated support sum to "
+                                  f"{float(F(impl['psum'][i]))!r}", None))
+                if impl.get("est") is not None and i < len(impl["est"]):
+                    ex = sum(table(r) for r in want) / len(want)
+                    if abs(F(impl["est"][i]) - ex) > Fr(1, 10 ** 5) * max(1, abs(ex)):
+                        fails.append((f"{el}: EnumerateEstimator returns {float(F(impl['est'][i]))!r}, E f = "
+                                      f"{float(ex)!r}", None))
+                if len(fails) >= 6:
+                    break
+            nsup = len(impl["support"])
+            if impl["support_shape"] != [nsup] + final + [out] or impl["support_shape_noexpand"] != (
+                    [nsup] + [1] * len(final) + [out]):
+                fails.append((f"{head}: enumerate_support has shape {impl['support_shape']} / "
+                              f"{impl['support_shape_noexpand']} (expand=False)", None))
+            if "est" in impl and impl["est_shape"] != final:
+                fails.append((f"{head}: EnumerateEstimator returns shape {impl['est_shape']}"
+                              + (" (ValueError inside the call)" if impl["est"] is None else ""), None))
+        if enumerable and ("support" not in impl or "est" not in impl):
+            fails.append((f"{head}: enumerate_support / EnumerateEstimator refuse ({impl.get('enum_error')}, "
+                          f"{impl.get('est_error')}) although all counts are equal", None))
+        if not enumerable and ("support" in impl or "est" in impl) and not fails:
+            fails.append((f"{head}: the counts differ over the batch but enumerate_support / EnumerateEstimator "
+                          f"do not refuse", None))
+        return fails[:8]
+
     # ---------------------------------------------------------------- binomial / enumerate_*
     def _impl_binom(self, case):
         import torch
@@ -1968,11 +2413,170 @@ class C19(PropertyCheck):
         import torch
         return {"float64": torch.float64, "float32": torch.float32}[case.get("dtype", "float64")]
 
+    # ---- operation sequences on one object (see RELAXED_OPS)
+    def _relaxed_op(self, d, op, dt):
+        """one operation of a history on a relaxed distribution object; the result is dropped.  Fixed
+        arguments, so that each operation reads exactly the attributes its code reads (csample:
+        `probs` only; log_prob / tlog_prob: `logits` only)."""
+        import torch
+        shp = list(d.batch_shape) + list(d.event_shape)
+        if len(d.event_shape):
+            V = d.event_shape[0]
+            z0 = (torch.arange(V, dtype=dt).flip(-1) / 4).expand(shp).clone()
+            b0 = torch.nn.functional.one_hot(torch.tensor(0), V).to(dt).expand(shp).clone()
+            other = torch.roll(b0, 1, -1)
+            wts = torch.arange(V, dtype=dt)
+            f = lambda b: (b * wts).sum(-1)
+            cv = lambda z: (torch.softmax(z, -1) * wts).sum(-1)
+        else:
+            z0 = torch.full(shp, 0.5, dtype=dt)
+            b0 = torch.ones(shp, dtype=dt)
+            other = 1 - b0
+            f = lambda b: b
+            cv = lambda z: torch.sigmoid(z)
+        if op in ("probs", "logits", "mean", "variance", "stddev", "support"):
+            getattr(d, op)
+        elif op == "entropy":
+            d.entropy()
+        elif op == "shapes":
+            d.batch_shape, d.event_shape, d.thresholded_support, d.has_rsample, d.has_enumerate_support
+        elif op == "repr":
+            repr(d)
+        elif op == "rsample":
+            d.rsample()
+        elif op == "rsample_n":
+            d.rsample([2])
+        elif op == "sample":
+            d.sample()
+        elif op == "threshold":
+            d.threshold(z0)
+        elif op == "threshold_st":
+            d.threshold(z0.clone().requires_grad_(True), True)
+        elif op == "log_prob":
+            d.log_prob(z0)
+        elif op == "tlog_prob":
+            d.tlog_prob(b0)
+        elif op == "csample":
+            d.csample(b0)
+        elif op == "clog_prob":
+            d.clog_prob(z0, b0)
+        elif op == "clog_prob_other":
+            d.clog_prob(z0, other)
+        elif op == "enumerate_support":
+            try:
+                d.enumerate_support()
+            except NotImplementedError:
+                pass
+        elif op == "relax":
+            from pydrobert.torch.estimators import RelaxEstimator
+            RelaxEstimator(d, f, 2, cv)()
+        elif op == "st":
+            from pydrobert.torch.estimators import StraightThroughEstimator
+            StraightThroughEstimator(d, f, 2)()
+        else:
+            raise ValueError(f"unknown operation {op}")
+
+    def _derive(self, d, case, event=0):
+        """run case['history'] on the object `d` (results dropped), deriving new objects with `expand`
+        where the history says so, then apply what is left of case['expand'] (leading axes, innermost
+        first).  -> the object the case observes"""
+        import torch
+        hist = case.get("history") or []
+        shape = list(case["shape"][: len(case["shape"]) - event])
+        pending = list(case.get("expand") or [])
+        done = []
+        dt = self._tdtype(case)
+        rand = lambda *a, **k: torch.full(tuple(a[0]) if a and not isinstance(a[0], int) else tuple(a), 0.375,
+                                          dtype=k.get("dtype", dt))
+        rand_like = lambda t, **k: torch.full_like(t, 0.625)
+        with fam.torch_patched(rand=rand, rand_like=rand_like):
+            for op in hist:
+                if op == "expand":
+                    if pending:
+                        done.insert(0, pending.pop())
+                    d = d.expand(done + shape)
+                else:
+                    self._relaxed_op(d, op, dt)
+        if pending:
+            d = d.expand(pending + done + shape)
+        return d
+
+    @staticmethod
+    def _model_hist(case):
+        """the history as the Lean object model reads it: reads of `probs` / `logits` and expands by
+        new leading axes (same bookkeeping as `_derive`)"""
+        pending = list(case.get("expand") or [])
+        out = []
+        for op in case.get("history") or []:
+            if op == "expand":
+                out.append([pending.pop()] if pending else [])
+            else:
+                out += RELAXED_READS.get(op, [])
+        if pending:
+            out.append(pending)
+        return out
+
+    def _fresh_twin(self, case, cls, event=0):
+        """a freshly constructed distribution of the EXPANDED parameter (no history, no expand call):
+        what `C19_params_lb_expand` / `C19_params_cat_expand` say the derived object must be"""
+        import torch
+        dt = self._tdtype(case)
+        t = torch.tensor([fam.fl(x) for x in case["values"]], dtype=dt).reshape(case["shape"])
+        t = t.expand(list(case.get("expand") or []) + list(case["shape"])).clone()
+        return cls(**{case["param"]: t}, validate_args=True if case.get("validate") else None)
+
+    def _pred_fresh(self, head, impl, dtn, vec=False):
+        """the derived object against the fresh twin: every observed quantity, entry by entry (discrete
+        outcomes only where the relaxed samples they are taken of are bit-equal)"""
+        fr = impl.get("fresh")
+        if fr is None:
+            return []
+        tol = (TOL_G if vec else TOL_D)[dtn]
+        fails = []
+        for nm in ("batch_shape", "event_shape", "shapes"):
+            if impl[nm] != fr[nm]:
+                fails.append((f"{head}: {nm} {impl[nm]}, a freshly constructed distribution of the expanded "
+                              f"parameter has {fr[nm]}", None))
+        flo = lambda x: [flo(y) for y in x] if isinstance(x, list) else (
+            float(F(x)) if isinstance(x, str) and x not in SPECIALS and x[:5] != "float" else x)
+        for nm, key in (("probs", "dprobs"), ("logits", "dlogits")):
+            bad = [i for i, (a, b) in enumerate(zip(impl[key], fr[key])) if not self._fclose(a, b, tol)]
+            if bad or len(impl[key]) != len(fr[key]):
+                i = bad[0] if bad else 0
+                fails.append((f"{head}: `{nm}` of the derived object is {fam_short(flo(impl[key]), 80)}, of a "
+                              f"freshly constructed distribution of the expanded parameter "
+                              f"{fam_short(flo(fr[key]), 80)} (entry {i})", None))
+        def eq(k, x, y):
+            if isinstance(x, list):
+                return isinstance(y, list) and len(x) == len(y) and all(eq(k, p, q) for p, q in zip(x, y))
+            if isinstance(x, bool) or isinstance(y, bool) or k.endswith("out_dtype"):
+                return x == y
+            return self._fclose(x, y, tol)
+        # discrete outcomes (and what is computed from them) are compared only where the relaxed sample
+        # they are taken of is bit-equal on both objects
+        dep = {"b": "z", "b_st": "z", "tlog": "z", "clog": "z", "c0.thr": "c0.zc", "c0.clog": "c0.zc",
+               "c0.clog_other": "c0.zc", "c1.thr": "c1.zc", "c1.clog": "c1.zc", "c1.clog_other": "c1.zc",
+               "thr_zc": "zc", "clog_zc": "zc", "clog_other": "zc", "in_support": "z"}
+        flat = lambda e: {**{k: v for k, v in e.items() if not isinstance(v, dict)},
+                          **{f"{c}.{k}": v for c in ("c0", "c1") if c in e for k, v in e[c].items()}}
+        seen = set()
+        for n, (a, b) in enumerate(zip(impl["elems"], fr["elems"])):
+            a, b = flat(a), flat(b)
+            for k in a:
+                if k in seen or k not in b or (k in dep and a[dep[k]] != b[dep[k]]):
+                    continue
+                if not eq(k, a[k], b[k]):
+                    seen.add(k)
+                    fails.append((f"{'row' if vec else 'entry'} {n} of {head}: `{k}` is {fam_short(flo(a[k]), 60)} "
+                                  f"on the derived object and {fam_short(flo(b[k]), 60)} on a freshly constructed "
+                                  f"distribution of the expanded parameter (same draws)", None))
+        return fails[:6]
+
     def _bern_dist(self, case):
         import torch
         from pydrobert.torch.distributions import LogisticBernoulli
         dt = self._tdtype(case)
-        if "value" not in case:          # cases written before the parameter was given directly
+        if "value" not in case:         # cases written before the parameter was given directly
             lg = torch.tensor([float(F(case["logit"]))], dtype=dt)
             return LogisticBernoulli(logits=lg) if case["param"] == "logits" else LogisticBernoulli(
                 probs=torch.sigmoid(lg))
@@ -2233,9 +2837,7 @@ class C19(PropertyCheck):
         dt = self._tdtype(case)
         t = torch.tensor([fam.fl(x) for x in case["values"]], dtype=dt).reshape(case["shape"])
         d = LogisticBernoulli(**{case["param"]: t}, validate_args=True if case.get("validate") else None)
-        if case.get("expand"):
-            d = d.expand(list(case["expand"]) + list(case["shape"]))
-        return d
+        return self._derive(d, case)
 
     def _bern_nd_elem(self, case, n):
         """the one-variable case entry n of the tensors is an instance of"""
@@ -2254,7 +2856,13 @@ class C19(PropertyCheck):
         pexp = [self._lb_expected(self._bern_nd_elem(case, i))[0] for i in range(n)]
         elems, info = self._lb_observe(d, case["dtype"], U, Vv, tuple(case.get("sample") or []), pexp)
         fl = lambda t: [fs(x) for x in t.reshape(-1).tolist()]
-        return {"elems": elems, **info, "dprobs": fl(d.probs), "dlogits": fl(d.logits)}
+        out = {"elems": elems, **info, "dprobs": fl(d.probs), "dlogits": fl(d.logits)}
+        if case.get("history") or case.get("expand"):
+            from pydrobert.torch.distributions import LogisticBernoulli
+            d2 = self._fresh_twin(case, LogisticBernoulli)
+            e2, i2 = self._lb_observe(d2, case["dtype"], U, Vv, tuple(case.get("sample") or []), pexp)
+            out["fresh"] = {"elems": e2, **i2, "dprobs": fl(d2.probs), "dlogits": fl(d2.logits)}
+        return out
 
     def _req_bern_nd(self, case):
         d = self._bern_nd_dist(case)
@@ -2262,6 +2870,7 @@ class C19(PropertyCheck):
         fl = lambda t: [fs(x) for x in t.reshape(-1).tolist()]
         return {"op": "c19.bern_nd", "case": {
             "ctor": case["param"], "shape": case["shape"], "expand": case.get("expand") or [],
+            "hist": self._model_hist(case),
             "data": [fs(self._rnd(x, dtn)) for x in case["values"]], "eps": fs(EPS[dtn]),
             "logits": fl(d.logits), "probs": fl(d.probs),
             "us": [fs(self._rnd(x, dtn)) for x in case["us"]], "vs": [fs(self._rnd(x, dtn)) for x in case["vs"]]}}
@@ -2317,8 +2926,9 @@ class C19(PropertyCheck):
 
     def _pred_bern_nd(self, case, impl, model):
         head = (f"LogisticBernoulli({case['param']}= tensor of shape {case['shape']}"
-                f"{', expand ' + str(case['expand']) if case.get('expand') else ''}, {case['dtype']})")
-        fails = self._pred_shapes(head, case, impl, [])
+                f"{', expand ' + str(case['expand']) if case.get('expand') else ''}, {case['dtype']})"
+                + (f" after the operations {case['history']}" if case.get("history") else ""))
+        fails = self._pred_shapes(head, case, impl, []) + self._pred_fresh(head, impl, case["dtype"])
         seen = set()
         for n, e in enumerate(impl["elems"]):
             m = model["elems"][n] if model is not None and n < len(model.get("elems", [])) else None
@@ -2560,9 +3170,7 @@ class C19(PropertyCheck):
         dt = self._tdtype(case)
         t = torch.tensor([fam.fl(x) for x in case["values"]], dtype=dt).reshape(case["shape"])
         d = GumbelOneHotCategorical(**{case["param"]: t}, validate_args=True if case.get("validate") else None)
-        if case.get("expand"):
-            d = d.expand(list(case["expand"]) + list(case["shape"][:-1]))
-        return d
+        return self._derive(d, case, 1)
 
     def _gumbel_nd_elem(self, case, n):
         """the one-row case that row n of the tensors is an instance of"""
@@ -2584,7 +3192,13 @@ class C19(PropertyCheck):
         Vv = torch.tensor([[float(F(x)) for x in r] for r in case["vs"]], dtype=dt).reshape(full)
         elems, info = self._g_observe(d, case["dtype"], U, Vv, tuple(case.get("sample") or []), case["ks"])
         fl = lambda t: [fs(x) for x in t.reshape(-1).tolist()]
-        return {"elems": elems, **info, "dprobs": fl(d.probs), "dlogits": fl(d.logits)}
+        out = {"elems": elems, **info, "dprobs": fl(d.probs), "dlogits": fl(d.logits)}
+        if case.get("history") or case.get("expand"):
+            from pydrobert.torch.distributions import GumbelOneHotCategorical
+            d2 = self._fresh_twin(case, GumbelOneHotCategorical, 1)
+            e2, i2 = self._g_observe(d2, case["dtype"], U, Vv, tuple(case.get("sample") or []), case["ks"])
+            out["fresh"] = {"elems": e2, **i2, "dprobs": fl(d2.probs), "dlogits": fl(d2.logits)}
+        return out
 
     def _req_gumbel_nd(self, case):
         d = self._gumbel_nd_dist(case)
@@ -2593,6 +3207,7 @@ class C19(PropertyCheck):
         rr = lambda rows: [[fs(self._rnd(x, dtn)) for x in r] for r in rows]
         return {"op": "c19.gumbel_nd", "case": {
             "ctor": case["param"], "shape": case["shape"], "expand": case.get("expand") or [],
+            "hist": self._model_hist(case),
             "data": [fs(self._rnd(x, dtn)) for x in case["values"]], "eps": fs(EPS[dtn]),
             "logits": fl(d.logits), "probs": fl(d.probs), "us": rr(case["us"]), "vs": rr(case["vs"]),
             "ks": case["ks"]}}
@@ -2618,8 +3233,9 @@ class C19(PropertyCheck):
     def _pred_gumbel_nd(self, case, impl, model):
         V = case["shape"][-1]
         head = (f"GumbelOneHotCategorical({case['param']}= tensor of shape {case['shape']}"
-                f"{', expand ' + str(case['expand']) if case.get('expand') else ''}, {case['dtype']})")
-        fails = self._pred_shapes(head, case, impl, [V])
+                f"{', expand ' + str(case['expand']) if case.get('expand') else ''}, {case['dtype']})"
+                + (f" after the operations {case['history']}" if case.get("history") else ""))
+        fails = self._pred_shapes(head, case, impl, [V]) + self._pred_fresh(head, impl, case["dtype"], True)
         seen = set()
         for n, e in enumerate(impl["elems"]):
             m = model["elems"][n] if model is not None and n < len(model.get("elems", [])) else None
@@ -2651,8 +3267,13 @@ class C19(PropertyCheck):
             d = LogisticBernoulli(logits=torch.tensor([math.log(k / (16 - k)) for k in ks], dtype=torch.float64))
         else:
             d = LogisticBernoulli(probs=probs)
+        # operation sequences / derived objects: the proposal handed to the estimator is what is left
+        # after the history and `expand` (new leading axes; every copy meets the same grid)
+        ex = list(case.get("expand") or [])
+        d = self._derive(d, dict(case, shape=[n]))
         g = [(j + 0.5) / 16 for j in range(16)]
         U = torch.tensor(list(itertools.product(g, repeat=n)), dtype=torch.float64)
+        U = U.reshape([U.shape[0]] + [1] * len(ex) + [n]).expand([U.shape[0]] + ex + [n]).clone()
         t = torch.tensor([float(F(x)) for x in case["f"]], dtype=torch.float64)
         w = torch.tensor([1.0, 2.0][:n], dtype=torch.float64)
         func = lambda b: t[(b.detach() * w).sum(-1).round().long()].unsqueeze(-1).expand(b.shape)
@@ -2662,9 +3283,9 @@ class C19(PropertyCheck):
             f = func if case.get("fp") is None else self._callback(case, None, "f", twin, logs["f"])
             with fam.torch_patched(rand=lambda *a, **k: U.clone()):
                 v = StraightThroughEstimator(d, f, U.shape[0])()
-            return [fs(x) for x in v.tolist()]
-        return {"v": run(False), "twin": run(True) if self._has_twin(case) else None,
-                "aliased": self._alias_obs(case, logs)}
+            return [fs(x) for x in v.reshape(-1).tolist()], list(v.shape)
+        (v, shp), tw = run(False), (run(True) if self._has_twin(case) else None)
+        return {"v": v, "shape": shp, "twin": tw and tw[0], "aliased": self._alias_obs(case, logs)}
 
     def _st_exact(self, case):
         ks = case["ks"]
@@ -2686,12 +3307,17 @@ class C19(PropertyCheck):
 
     def _pred_st_value(self, case, impl, model):
         fails = self._pred_twin("StraightThroughEstimator", case, impl["v"], impl.get("twin"))
+        rep = self._prod(case.get("expand") or [])
         if case.get("fp") is not None:
             # an elementwise integrand x -> a x + c written as the spelling says: entry j estimates a p_j + c
-            exs = [alias.value(case["fp"], Fr(k, 16)) for k in case["ks"]]
+            exs = [alias.value(case["fp"], Fr(k, 16)) for k in case["ks"]] * rep
         else:
             exs = [self._st_exact(case)] * len(impl["v"])
-        return fails + [(f"StraightThroughEstimator: grid mean {x} != E f = {float(ex)}", None)
+        head = "StraightThroughEstimator" + self._hist_head(case)
+        want = list(case.get("expand") or []) + [len(case["ks"])]
+        if impl.get("shape", want) != want:
+            fails.append((f"{head}: returns shape {impl['shape']}, batch shape of the proposal {want}", None))
+        return fails + [(f"{head}: grid mean {x} != E f = {float(ex)}", None)
                         for x, ex in zip(impl["v"], exs) if not close(x, ex)]
 
     @staticmethod
@@ -2716,6 +3342,11 @@ class C19(PropertyCheck):
         else:
             t = torch.tensor([k / 16 for k in ks], dtype=torch.float64)
         d = LogisticBernoulli(**{par: t.reshape(shape).requires_grad_(True)})
+        # operation sequences / derived objects (see st_value): entry i of the expanded proposal is entry
+        # i % n of the parameter
+        ex = list(case.get("expand") or [])
+        d = self._derive(d, dict(case, shape=list(shape)))
+        ks, n, shape = list(ks) * self._prod(ex), n * self._prod(ex), ex + list(shape)
         # p = 0 / p = 1: only one region, 16 conditional draws each
         R = 1
         for k in ks:
@@ -2730,8 +3361,9 @@ class C19(PropertyCheck):
         full = [len(us)] + list(shape)
         U = torch.tensor(us, dtype=torch.float64).reshape(full)
         Vv = torch.tensor(vs, dtype=torch.float64).reshape(full)
-        f0 = torch.tensor([float(F(x[0])) for x in fs_], dtype=torch.float64).reshape(shape)
-        f1 = torch.tensor([float(F(x[1])) for x in fs_], dtype=torch.float64).reshape(shape)
+        rp = self._prod(ex)
+        f0 = torch.tensor([float(F(x[0])) for x in fs_] * rp, dtype=torch.float64).reshape(shape)
+        f1 = torch.tensor([float(F(x[1])) for x in fs_] * rp, dtype=torch.float64).reshape(shape)
         wv = (torch.arange(1, n + 1, dtype=torch.float64) / n).reshape(shape)
         logs = {"f": [], "c": []}
 
@@ -2768,15 +3400,17 @@ class C19(PropertyCheck):
         fails = self._pred_twin("RelaxEstimator", case, impl["v"], impl.get("twin"))
         if case.get("fp") is not None:
             fs_ = [[fs(alias.value(case["fp"], 0)), fs(alias.value(case["fp"], 1))] for _ in ks]
-        if impl["shape"] != list(shape):
-            fails.append((f"RelaxEstimator over LogisticBernoulli({par}= tensor of shape {shape}) returns shape "
+        hh = self._hist_head(case)
+        rp = self._prod(case.get("expand") or [])
+        if impl["shape"] != list(case.get("expand") or []) + list(shape):
+            fails.append((f"RelaxEstimator over LogisticBernoulli({par}= tensor of shape {shape}){hh} returns shape "
                           f"{impl['shape']}", None))
             return fails
-        for i, (k, f, v) in enumerate(zip(ks, fs_, impl["v"])):
+        for i, (k, f, v) in enumerate(zip(list(ks) * rp, list(fs_) * rp, impl["v"])):
             p = Fr(k, 16)
             ex = (1 - p) * F(f[0]) + p * F(f[1])
             if not close(v, ex, 1e-8):
-                fails.append((f"RelaxEstimator over LogisticBernoulli({par}=.., shape {shape}), entry {i} "
+                fails.append((f"RelaxEstimator over LogisticBernoulli({par}=.., shape {shape}){hh}, entry {i} "
                               f"(p = {k}/16), {case.get('cvkind', 'smooth')} control variate: mean value over the "
                               f"(u, v) grid {float(F(v)) if v not in SPECIALS else v} != E f = {float(ex)}", None))
         return fails
@@ -2983,6 +3617,8 @@ class C19(PropertyCheck):
             return case["L"] >= 2
         if k in ("enum_vocab", "enum_card"):
             return case["length"] >= 2
+        if k == "srswor_seq":
+            return len(case["total"]) * len(case["given"]) >= 2 or bool(case.get("expands"))
         return True
 
     def tags(self, case, impl):
@@ -3044,11 +3680,22 @@ class C19(PropertyCheck):
                   f"{k}:{case.get('param', 'probs')}/shape={case.get('shape', [len(ks)])}"]
             if k == "relax_value":
                 t += [f"relax_value:cv={case.get('cvkind', 'smooth')}"]
+            if "history" in case:
+                t += [f"{k}:expand={case.get('expand')}"] + self._hist_tags(k, case, bool(case.get("expand")))
         elif k in ("bern_nd", "gumbel_nd"):
             t += [f"{k}:{case['param']}/shape={case['shape']}", f"{k}:expand={case.get('expand')}",
                   f"{k}:sample={case.get('sample')}", f"{k}:{case['dtype']}"]
             if any(fam.is_ninf(x) for x in case["values"]):
                 t += [f"{k}:logit=-inf"]
+            t += self._hist_tags(k, case, bool(case.get("expand")))
+        elif k == "srswor_seq":
+            _, final, out, tot, giv = self._sq_layout(case)
+            t += [f"srswor_seq:tshape={case['tshape']}/gshape={case['gshape']}",
+                  f"srswor_seq:totals {'equal' if len(set(tot)) == 1 else 'differ'}/given "
+                  f"{'equal' if len(set(giv)) == 1 else 'differ'}",
+                  f"srswor_seq:expands={case.get('expands')}",
+                  f"srswor_seq:out_size={'default' if case['out_size'] is None else 'max' if out == max(tot) else 'beyond'}"]
+            t += self._hist_tags(k, case, bool(case.get("expands")))
         elif k == "relax_comb" and case.get("dist") == "gumbel":
             t += [f"relax_comb:gumbel/{case['param']}"]
             if any(fam.is_ninf(x) for x in case["theta"]):
@@ -3085,8 +3732,34 @@ class C19(PropertyCheck):
             t += ["enumerate:near-boundary"]
         return t
 
+    @staticmethod
+    def _hist_head(case):
+        return ((f", expand {case['expand']}" if case.get("expand") else "")
+                + (f", after the operations {case['history']}" if case.get("history") else ""))
+
+    @staticmethod
+    def _hist_tags(k, case, expands):
+        """which operations ran on the object before a derived object was made of it"""
+        h = case.get("history") or []
+        t = [f"{k}:history length={len(h)}"]
+        last = max([i for i, op in enumerate(h) if op == "expand"], default=None)
+        before = h[:last] if last is not None else (h if expands else [])
+        t += [f"{k}:before a derived object: {op}" for op in sorted(set(before) - {"expand"})]
+        if not expands and last is not None:
+            t += [f"{k}:expand to the same shape"]
+        if last is not None and last + 1 < len(h):
+            t += [f"{k}:operations on the derived object"]
+        return t
+
     def shrink(self, case):
         k = case["kind"]
+        if case.get("history"):
+            h = case["history"]
+            yield dict(case, history=[])
+            for i in range(len(h)):
+                yield dict(case, history=h[:i] + h[i + 1:])
+        if k == "srswor_seq" and case.get("expands"):
+            yield dict(case, expands=case["expands"][:-1])
         if k in ("direct", "is") and case["N"] > 1:
             yield dict(case, N=1)
         if k == "direct" and (case.get("c") is not None or case.get("cp") is not None):
